@@ -50,6 +50,8 @@ WORLDS = {
     "W64-575q": (["FP_PRIME=575", "FP_QNRES=on", "BN_PRECI=3072"], ""),
     "W64-638": (["FP_PRIME=638"], ""),
     "W64-544": (["FP_PRIME=544"], ""),
+    "W64-fb163": (["FB_POLYN=163"], ""),
+    "W64-fb233": (["FB_POLYN=233"], ""),
     # the remaining pairing field sizes (one selectable family each): thorough tier only
     "W64-158": (["FP_PRIME=158"], ""),
     "W64-254": (["FP_PRIME=254"], ""),
